@@ -167,6 +167,8 @@ def read_sites(repo):
     return sorted(set(sites))
 
 
+GUARD_FACTS = {}
+
 def command_table(repo):
     """which generic readers the four commands of the property (and their explicit-id variants) use for
     snapshot and index files; each row is recognised in the body of the named function"""
@@ -440,6 +442,21 @@ def gen(repo):
     p1, p2, p3 = ck.find("check_packs("), ck.find("cache.remove_not_in_list(FileType::Pack, &ids)"), ck.find("check_trees(")
     if not (0 <= p1 < p2 < p3) or "index_collector .tree_packs()" not in ck.replace("index_collector.tree_packs()", "index_collector .tree_packs()"):
         raise ExtractError("check_repository: order check_packs -> cache.remove_not_in_list(Pack, tree packs of the index) -> check_trees changed")
+    # WHICH options guard the pack clean-up: every `if` whose block encloses the call, conjuncts of its condition
+    conj = []
+    for mi in re.finditer(r"\bif\b", ck[:p2]):
+        b = ck.find("{", mi.end())
+        if b < 0 or b > p2:
+            continue
+        if match_brace(ck, b) > p2:
+            conj += [c.strip() for c in ck[mi.end():b].split("&&")]
+    for c in conj:
+        if c not in ("let Some(cache) = &cache", "!opts.trust_cache"):
+            raise ExtractError("check_repository: the pack clean-up of the cache is guarded by an unrecognised condition `%s`" % c)
+    if "let Some(cache) = &cache" not in conj:
+        raise ExtractError("check_repository: the pack clean-up is no longer under `if let Some(cache) = &cache`")
+    GUARD_FACTS["pack_cleanup_guard"] = conj
+    GUARD_FACTS["cleanup_needs_untrusted"] = "!opts.trust_cache" in conj
     if not re.search(r"for file_type in \[FileType::Snapshot, FileType::Index\] \{ _ = be\.list_with_size\(file_type\)\?;", ck):
         raise ExtractError("check_repository: listing of snapshots and index files before the cache comparison changed")
     if sites != EXPECTED_SITES:
@@ -458,10 +475,12 @@ def gen(repo):
     out.append("(* the generic readers each command uses for snapshot and index files (recognised in the command bodies) *)")
     out.append("Definition cmd_readers (c : cmd) : list (rdr * ftype) :=\n  match c with\n" +
                "".join("  | %s => [%s]  (* %s *)\n" % (n, "; ".join("(%s, %s)" % rt for rt in rows_), w) for n, rows_, w in cmds) + "  end.")
+    out.append("(* check_repository: the clean-up of cached packs against the tree packs of the index is guarded by: %s *)" % " && ".join(GUARD_FACTS["pack_cleanup_guard"]))
+    out.append("Definition pack_cleanup_needs_untrusted : bool := %s." % ("true" if GUARD_FACTS["cleanup_needs_untrusted"] else "false"))
     out.append("(* an id-only listing (ReadBackend::list) through DecryptBackend -> Arc<dyn WriteBackend> -> CachedBackend")
     out.append("   ends in CachedBackend::list_with_size, i.e. runs the cache clean-up *)")
     out.append("Definition list_reaches_cleanup : bool := %s." % ("true" if reaches else "false"))
-    meta = {"command_readers": {n: ["%s/%s" % rt for rt in rows_] for n, rows_, _ in cmds}, "unlisted_reader_call_sites": sites, "readers": {nme: evs for nme, evs, _ in rows}, "list_reaches_cleanup": reaches, "lists_strays": not canonical_only, "file_type_cacheable": ft, "blob_type_cacheable": bt, "guards": {k: v[1] for k, v in guards.items()},
+    meta = {"check_pack_cleanup_guard": GUARD_FACTS["pack_cleanup_guard"], "command_readers": {n: ["%s/%s" % rt for rt in rows_] for n, rows_, _ in cmds}, "unlisted_reader_call_sites": sites, "readers": {nme: evs for nme, evs, _ in rows}, "list_reaches_cleanup": reaches, "lists_strays": not canonical_only, "file_type_cacheable": ft, "blob_type_cacheable": bt, "guards": {k: v[1] for k, v in guards.items()},
             "early_exit": early_exit, "dirnames": names}
     return "\n".join(out) + "\n", meta
 
